@@ -10,7 +10,8 @@ from core import DimArray
 RED = ["sum", "prod", "mean", "min", "max", "ptp", "all", "any", "median", "var"]
 ARG = ["argmin", "argmax"]
 CUM = ["cumsum", "cumprod"]
-XFNS = RED + ARG + CUM
+# std needs a square root: the driver evaluates the model's var and the harness compares sqrt(var) within 1e-12 relative
+XFNS = RED + ARG + CUM + ["std"]
 
 # NumPy's own nanargmin / nanargmax (the functions _get_func selects, and the reference the property names: "equal NumPy's"):
 # on a fibre whose non-NaN cells are all +inf and that holds a NaN before the first +inf they return the position of that NaN
@@ -37,6 +38,17 @@ def untok(t):
     if t == "-inf":
         return float("-inf")
     return float(Fraction(t[1], t[2]))
+
+
+def sqrt_tok(t):
+    """square root of a model cell (std = sqrt(var)): NaN / +inf kept, a rational as the nearest float's token"""
+    if isinstance(t, str):
+        return "nan" if t == "-inf" else t
+    q = Fraction(t[1], t[2])
+    if q < 0:
+        return "nan"
+    r = math.isqrt((q.numerator << 200) // q.denominator)       # floor(sqrt(q) * 2^100): 30 significant digits
+    return tok(float(Fraction(r, 1 << 100)))
 
 
 def same(got, want, exact=True):
@@ -92,6 +104,17 @@ def rand_values(rng, shape, rank_axis_hint=None):
 def gen_cases(prop, rng, tier):
     from .c08 import spell_elems
     n = 700 if tier == "quick" else 20000
+    # stratum: argmin / argmax / cumsum / cumprod / std over a TUPLE of dimensions of a rank-2 / rank-3 array (tuples of labels
+    # come back, the grouped dimension comes first), sizes 2-4 so that the position in the group is not symmetric
+    for k in range(60 if tier == "quick" else 1500):
+        rank = rng.choice([2, 3, 3])
+        arr = gen.rand_array(rng, rank=rank, maxn=4, minn=2)
+        arr["vkind"] = "f"
+        shape = [len(a["labels"]) for a in arr["axes"]]
+        names = [a["name"] for a in arr["axes"]]
+        fn = (ARG + CUM + ARG + ["std"])[k % 7]
+        ax = ["many", spell_elems(rng, rng.sample(names, rng.randint(2, rank) if fn not in ARG else 2), names)]
+        yield {"op": "redx", "array": arr, "xvals": rand_values(rng, shape), "fn": fn, "axis": ax, "skipna": rng.random() < 0.6}
     k = 0
     while k < n:
         rank = rng.choice([1, 1, 2, 2, 3])
@@ -103,7 +126,9 @@ def gen_cases(prop, rng, tier):
         r = rng.random()
         if r < 0.15:
             ax = None
-        elif r < 0.3 and rank >= 2 and fn not in ARG:
+        elif r < (0.45 if fn in ARG or fn in CUM else 0.3) and rank >= 2:
+            # a tuple of dimensions (all of them included): argmin / argmax then return tuples of labels, the cumulative
+            # functions accumulate along the grouped dimension
             ax = ["many", spell_elems(rng, rng.sample(names, rng.randint(2, rank)), names)]
         else:
             d = rng.randrange(rank)
@@ -136,6 +161,23 @@ def impl(c):
             if c["axis"] is None:
                 pos = [list(ax.values).index(l) for ax, l in zip(a.axes, r)]
                 return {"scalar": True, "dims": [], "shape": [], "vals": [tok(int(np.ravel_multi_index(pos, a.shape)))]}
+            if c["axis"][0] == "many":
+                # a tuple of labels (one per listed dimension, in the listed order) -> position in the flattened group
+                from .c08 import resolve_dims
+                red = resolve_dims(c["axis"], list(a.dims))
+                labs = [list(a.axes[a.dims.index(d)].values) for d in red]
+                ext = [len(l) for l in labs]
+
+                def flatpos(t):
+                    if not isinstance(t, tuple) or len(t) != len(red):
+                        raise ValueError("argmin/argmax over %d dimensions returned %r" % (len(red), t))
+                    if not all(v in l for l, v in zip(labs, t)):
+                        return "unmapped"       # not labels of the listed dimensions in the listed order
+                    return tok(int(np.ravel_multi_index([l.index(v) for l, v in zip(labs, t)], ext)))
+                if isinstance(r, DimArray):
+                    return {"scalar": False, "dims": list(r.dims), "shape": list(r.shape),
+                            "vals": [flatpos(t) for t in r.values.reshape(-1)]}
+                return {"scalar": True, "dims": [], "shape": [], "vals": [flatpos(r)]}
             d = a.dims.index(c["axis"][1]) if c["axis"][0] == "name" else c["axis"][1] % a.ndim
             labs = list(a.axes[d].values)
             if isinstance(r, DimArray):
@@ -160,7 +202,7 @@ def impl(c):
 def request(c):
     from .c08 import lean_axis_arg
     arr = core.lean_array(gen.clean(c["array"]), core.AttrTokens())
-    return {"op": "redx", "arrays": [arr], "xvals": c["xvals"], "fn": c["fn"], "skipna": c["skipna"],
+    return {"op": "redx", "arrays": [arr], "xvals": c["xvals"], "fn": "var" if c["fn"] == "std" else c["fn"], "skipna": c["skipna"],
             "axis": lean_axis_arg(c["axis"])}
 
 
@@ -214,7 +256,7 @@ def judge(prop, c, io, ans):
     lean = ans["lib"]
     bad, prop_bad = [], []
     fn = c["fn"]
-    exact = fn != "var"
+    exact = fn not in ("var", "std")
     a = build(c)
     # ---- model vs implementation
     if "ok" in lean:
@@ -229,6 +271,8 @@ def judge(prop, c, io, ans):
                 lvals, ldims, lshape = lo["flat"], None, [len(lo["flat"])]
             else:
                 lvals, ldims, lshape = lo["cells"], lo["dims"], lo["shape"]
+            if fn == "std":
+                lvals = [sqrt_tok(t) for t in lvals]
             if got["scalar"] != ("scalar" in lo):
                 bad.append("scalar")
             if got["dims"] != ldims:
@@ -265,7 +309,21 @@ def judge(prop, c, io, ans):
                     if got["dims"] != names:
                         prop_bad.append("dims")
                 else:
-                    want = None      # accumulation over a group of dimensions: the model (C09) names the order
+                    # a group of dimensions: flattened in the listed order (row-major) into ONE dimension "d1,d2" put first,
+                    # the other dimensions follow in their order; the accumulation runs along the grouped dimension
+                    keep = [d for d in names if d not in red]
+                    v = a.values.transpose([names.index(d) for d in red] + [names.index(d) for d in keep])
+                    nr = int(np.prod([a.shape[names.index(d)] for d in red]))
+                    v = v.reshape((nr,) + tuple(a.shape[names.index(d)] for d in keep))
+                    if v.size:
+                        w = np.apply_along_axis(lambda f: np.array(oracle_fibre(fn, c["skipna"], f)), 0, v)
+                    else:
+                        w = v
+                    want = list(w.reshape(-1))
+                    if got["dims"] != [",".join(red)] + keep:
+                        prop_bad.append("dims")
+                    elif got["shape"] != list(v.shape):
+                        prop_bad.append("shape")
             if want is not None and (len(want) != len(got["vals"]) or
                                      not all(same(g, tok(w), True) for g, w in zip(got["vals"], want))):
                 prop_bad.append("values:oracle")
